@@ -13,7 +13,7 @@ for k in 1 2 3 4; do
   (cd $sd && timeout 900 /venv/bin/python -W ignore demo.py > val_clean.out 2>/dev/null); c1=$?
   if git apply --check $sd/patch.diff 2>/dev/null; then git apply $sd/patch.diff; how=apply
   elif git apply --3way $sd/patch.diff >/dev/null 2>&1; then how=3way; git reset -q
-  else echo "R$p-m$k PATCH-DOES-NOT-APPLY"; continue; fi
+  else echo "R$p-m$k PATCH-DOES-NOT-APPLY"; git reset -q --hard; continue; fi
   git diff > $sd/patch.rebased.diff
   (cd $sd && timeout 900 /venv/bin/python -W ignore demo.py > val_patched.out 2>/dev/null); c2=$?
   same=$(cmp -s $sd/val_clean.out $sd/val_patched.out && echo 1 || echo 0)
